@@ -276,6 +276,25 @@ func NewKernel(ctx context.Context, log *slog.Logger, cfg KernelConfig) (*Kernel
 		return nil, err
 	}
 
+	// The process may have stopped after persisting the precommits that decide the voting round
+	// but before persisting the resulting commit or round change.
+	// Those precommits were just loaded into the voting view,
+	// and redelivered copies of them will be redundant,
+	// so nothing else would ever trigger the check for a view shift on them.
+	h, r := initState.Voting.Height, initState.Voting.Round
+	if err := k.checkVotingPrecommitViewShift(ctx, &initState); err != nil {
+		return nil, fmt.Errorf(
+			"cannot initialize mirror kernel: failed to apply stored precommits for voting round: %w", err,
+		)
+	}
+	if initState.Voting.Height != h || initState.Voting.Round != r {
+		// The shift has been persisted now.
+		// Start over from the stores, so that anything already stored
+		// for the new voting round (votes received while it was a future round)
+		// is loaded into the views like on any other start.
+		return NewKernel(ctx, log, cfg)
+	}
+
 	go k.mainLoop(ctx, &initState, cfg.Watchdog)
 
 	return k, nil
